@@ -39,6 +39,9 @@ OneShotOK(r) ==
              flat == [i \in 1..t |-> i]
          IN /\ r.fwd = flat /\ r.bwd = Rev(flat) /\ r.fwd2 = flat /\ r.bwd2 = Rev(flat)
             /\ r.res = <<t, IF t > 0 THEN flat[(t \div 2) + 1] ELSE 0>>
+            \* random-access jumps from position i to position j (row-major over 0..t): land on element j (0 = the end), distance j - i
+            /\ r.jv = [x \in 1..((t + 1) * (t + 1)) |-> LET j == (x - 1) % (t + 1) IN IF j = t THEN 0 ELSE j + 1]
+            /\ r.jd = [x \in 1..((t + 1) * (t + 1)) |-> ((x - 1) % (t + 1)) - ((x - 1) \div (t + 1))]
     [] r.op = "largearray" -> r.res = <<r.b, r.b, 1, 1, 0>>
     [] OTHER -> FALSE
 
